@@ -43,7 +43,7 @@ Definition tok_text (t : tk) : str :=
   | TDot => $"." | TLBracket => $"[" | TRBracket => $"]" | TLBrace => $"{" | TRBrace => $"}" | TComma => $","
   | TTrue => $"true" | TFalse => $"false" | TNull => $"null"
   | TInt t => t | TUint t => t | TString t => t | TBytes t => t | TFloat t => t
-  | _ => []
+  | TEscIdent t => t
   end.
 
 Definition ident_okb (x : str) : bool :=
@@ -672,6 +672,16 @@ Fixpoint ids_ok (t : st) : Prop :=
       Forall (fun n => ident_okb n = true) names /\
       (fix go (l : list (str * st)) : Prop :=
          match l with [] => True | (n, v) :: l' => ident_okb n = true /\ ids_ok v /\ go l' end) fields
+  | SLstT es => all es
+  | SMapT kvs => (fix go (l : list (st * st)) : Prop :=
+                    match l with [] => True | (k, v) :: l' => ids_ok k /\ ids_ok v /\ go l' end) kvs
+  | SMsgT _ names fields =>
+      Forall (fun n => ident_okb n = true) names /\
+      (fix go (l : list (str * st)) : Prop :=
+         match l with [] => True | (n, v) :: l' => ident_okb n = true /\ ids_ok v /\ go l' end) fields
+  | SDotId x => ident_okb x = true
+  | SDotCall f args => ident_okb f = true /\ all args
+  | SSelEsc a f => ids_ok a /\ lexable (TEscIdent f)
   | SNot _ a | SNeg _ a | SParen a => ids_ok a
   | SMul _ a b | SAdd _ a b | SRel _ a b => ids_ok a /\ ids_ok b
   | SAnd a rs | SOr a rs =>
@@ -787,6 +797,37 @@ Proof.
     apply simple_app; [apply simple_tk_at; auto|]. apply simple_app; [now apply simple_one|].
     apply simple_app; [apply simple_tk_at; auto|]. apply simple_app; [now apply simple_one|auto].
   - cbn [raw]. apply simple_cons; [reflexivity|]. apply simple_app; [auto|now apply simple_one].
+  - (* list literal with a trailing comma *)
+    rewrite raw_listt. apply simple_cons; [reflexivity|]. apply simple_app; [|apply simple_cons; [reflexivity|now apply simple_one]]. apply simple_commas.
+    induction H as [|r rs Hr _ IH]; [constructor|]. destruct W as [Wr Wrs]. destruct I as [Ir Irs].
+    constructor; [now apply Hr|now apply IH].
+  - (* map literal with a trailing comma *)
+    rewrite raw_mapt. apply simple_cons; [reflexivity|]. apply simple_app; [|apply simple_cons; [reflexivity|now apply simple_one]]. apply simple_entries.
+    induction H as [|[k v] l [Hk Hv] _ IH]; [constructor|]. destruct W as (Wk & Wv & Wl). destruct I as (Ik & Iv & Il).
+    constructor; [split; [now apply Hk|now apply Hv]|now apply IH].
+  - (* message literal with a trailing comma *)
+    destruct W as [_ Wf]. destruct I as [In If]. rewrite raw_msgt.
+    apply simple_app; [destruct lead; [now apply simple_one|constructor]|].
+    apply simple_app.
+    { clear -In. induction In as [|a names Ha Hn IH]; [constructor|]. destruct names as [|b names'].
+      - now apply simple_one.
+      - change (ids_tk (a :: b :: names')) with (TIdent a :: TDot :: ids_tk (b :: names')).
+        apply simple_cons; [exact Ha|]. apply simple_cons; [reflexivity|exact IH]. }
+    apply simple_cons; [reflexivity|]. apply simple_app; [|apply simple_cons; [reflexivity|now apply simple_one]].
+    induction H as [|[n v] l Hv _ IH]; [constructor|]. destruct Wf as [Wv Wl]. destruct If as (In0 & Iv & Il).
+    cbn [fields_tk snd] in *. apply simple_cons; [exact In0|]. apply simple_cons; [reflexivity|].
+    apply simple_app; [now apply Hv|]. destruct l; [constructor|]. apply simple_cons; [reflexivity|now apply IH].
+  - (* .x *)
+    cbn [raw]. apply simple_cons; [reflexivity|]. now apply simple_one.
+  - (* .f(args) *)
+    destruct W as (_ & Wargs). destruct I as (If & Iargs). rewrite raw_dotcall.
+    apply simple_cons; [reflexivity|]. apply simple_cons; [exact If|]. apply simple_cons; [reflexivity|].
+    apply simple_app; [|now apply simple_one]. apply simple_commas.
+    induction H as [|r rs Hr _ IH]; [constructor|]. destruct Wargs as [Wr Wrs]. destruct Iargs as [Ir Irs].
+    constructor; [now apply Hr|now apply IH].
+  - (* a.`f` *)
+    destruct I as [Ia If]. cbn [raw]. fold (tk_at 7 t). apply simple_app; [apply simple_tk_at; auto|].
+    apply simple_cons; [reflexivity|]. now apply lexable_one.
 Qed.
 
 (** ** From source text to the tree *)
@@ -843,6 +884,32 @@ Lemma lexable_raw3 p q body : (p = ch "r" \/ p = ch "R")%N -> (q = 34 \/ q = 39)
 Proof.
   intros Hp Hq Hb. split; [eexists; eexists; split; [reflexivity|destruct Hp as [-> | ->]; reflexivity]|].
   intros rest. apply (lex_raw p q (q :: q :: body ++ [q; q; q]) rest Hp Hq). now apply string_len_raw3.
+Qed.
+
+(** a back-quoted identifier:  ` body `  with a non-empty body of the characters the rule allows *)
+Lemma span_esc body rest : forallb is_esc_ident_char body = true ->
+  span is_esc_ident_char (body ++ 96%N :: rest) = (body, 96%N :: rest).
+Proof.
+  induction body as [|c r IH]; intros H; [reflexivity|].
+  cbn [forallb] in H. apply andb_prop in H as [Hc Hr]. cbn [app span]. rewrite Hc, (IH Hr). reflexivity.
+Qed.
+
+Lemma lexable_escident body : body <> [] -> forallb is_esc_ident_char body = true ->
+  lexable (TEscIdent (96%N :: body ++ [96%N])).
+Proof.
+  intros Hne Hb. split; [eexists; eexists; split; [reflexivity|reflexivity]|].
+  intros rest. cbn [tok_text]. 
+  replace ((96%N :: body ++ [96%N]) ++ 32%N :: rest) with (96%N :: body ++ 96%N :: 32%N :: rest)
+    by (cbn [app]; now rewrite <- app_assoc).
+  unfold lex_one. cbn [bytes_tok_len string_tok_len string_len]. 
+  change ((96 =? ch "b") || (96 =? ch "B"))%N with false.
+  change ((96 =? ch "r") || (96 =? ch "R"))%N with false.
+  change ((96 =? 34) || (96 =? 39))%N with false. cbv beta iota.
+  change (is_ws 96) with false. change (is_ident_start 96) with false. cbv beta iota.
+  assert (NT : num_tok (96%N :: body ++ 96%N :: 32%N :: rest) = None).
+  { unfold num_tok. reflexivity. }
+  rewrite NT. rewrite N.eqb_refl. rewrite (span_esc body (32%N :: rest) Hb).
+  destruct body as [|c r]; [congruence|]. rewrite N.eqb_refl. reflexivity.
 Qed.
 
 Lemma compile_str_token tok s : decode_string tok = Some s -> lexable (TString tok) ->
